@@ -203,6 +203,9 @@ def step (line : String) : String :=
   | ["plan_links", f, t] => match Parse.parse parseEnv (hexd t) with
       | .ok u => "ok " ++ list ((Inst.planLinks (hexd f) u).flatMap fun (l, t) => [l, t])
       | .error _ => "err Unit"
+  | ["made_links", f, t] => match Parse.parse parseEnv (hexd t) with
+      | .ok u => "ok " ++ list (Inst.madeLinks (hexd f) u)
+      | .error _ => "err Unit"
   | ["clean", a] => "ok " ++ hexe (Pth.cleaned (hexd a))
   -- the harness runs both drivers with the working directory "/"
   | ["absolute_from", r, a] => "ok " ++ hexe (Pth.absoluteFrom ['/'] (hexd r) (hexd a))
